@@ -5,6 +5,6 @@ open SafeNet.Driver
 /-- `drv_lifecycle` replays an ops file on stdin through the lifecycle model. -/
 def main (args : List String) : IO UInt32 := do
   match args with
-  | [] => loop (← IO.getStdin) Lifecycle.step SafeNet.Lifecycle.World.init; return 0
+  | [] => loop (← IO.getStdin) Lifecycle.step SafeNet.Lifecycle.Sys.init; return 0
   | ["search"] => return 0
   | _ => IO.eprintln "usage: drv_lifecycle [search] < ops.txt"; return 2
